@@ -10,5 +10,5 @@ CONSTANTS
   Atomic = TRUE
   Bug = "none"
   Emit = TRUE
-INVARIANTS NoRace JoinBeforeReturn ScheduleIndependent PerCellAndFrame FrameAlways
+INVARIANTS FootprintsAreSets NoRace JoinBeforeReturn ScheduleIndependent PerCellAndFrame FrameAlways
 CHECK_DEADLOCK FALSE
